@@ -5,7 +5,6 @@ import (
 	"os"
 	"path/filepath"
 	"runtime"
-	"strings"
 )
 
 // AvailableDiskSize 获取磁盘剩余空间大小
@@ -28,10 +27,17 @@ func CopyDir(src, dest string, exclude []string) error {
 
 	// 递归遍历源目录中的所有文件和子目录
 	return filepath.Walk(src, func(path string, info fs.FileInfo, err error) error {
-		// 从源路径中去除源目录前缀获取相对路径
-		fileName := strings.Replace(path, src, "", 1)
-		if fileName == "" {
-			// 如果相对路径为空, 即当前路径就是源目录本身, 则跳过
+		if err != nil {
+			return err
+		}
+		// 获取相对于源目录的路径. Walk 传入的子路径经过 filepath.Clean 处理,
+		// 源目录形如 "./data"、"/a//b" 时不再以 src 为前缀, 不能通过去除前缀得到
+		fileName, err := filepath.Rel(src, path)
+		if err != nil {
+			return err
+		}
+		if fileName == "." {
+			// 当前路径就是源目录本身, 跳过
 			return nil
 		}
 
